@@ -112,6 +112,11 @@ def unbox(spec: Spec, t, st: State, facts: bool = True) -> Sym:
         if facts:
             st.assume(t != NONE)
         return Sym("seq", unS(t), spec)
+    if k == "tupleof":
+        if facts:
+            st.assume(t != NONE)
+            st.assume(Q.Length(unS(t)) == len(spec.arg))
+        return Sym("seq", unS(t), spec)
     if k == "obj":
         if facts:
             st.assume(t != NONE)
